@@ -39,4 +39,9 @@ theorem nondet_sources_ok :
   refine ⟨by decide, by decide, ?_⟩
   decide
 
+/-- every type that hashes by hand also compares by hand: a hand-written `Hash` next to a derived
+`PartialEq` is how equality and hash of `InpInternPool` drifted apart (keys of a randomly seeded
+`IndexSet`; repaired in 131db37).  Decided on the inventory regenerated from the current source. -/
+theorem hash_impls_paired : (Gen.handHash.all fun t => Gen.handEq.contains t) = true := by decide
+
 end Complgen.Props.C10
